@@ -581,8 +581,24 @@ def runArenaInj (coll : String) (op : Toks) (a : Arena Int) (k : Nat) : String :
   | none => "wf=0:abs | out=FAULT | st=- | tr="
   | some st =>
     if base != "key" then
-      -- map / set: every callback precedes the first write
-      s!"wf=1 | out=panic | st={showArena a} | tr="
+      -- map / set: the instrumented transcription of the two mutating operations that call user code; the
+      -- read-only operations take `&self`
+      let tr? : Option (List (AEv Int)) := match op with
+        | ["insert", kk, v] => match tokInt kk, tokInt v with
+          | some kk, some v => (a.insertT ⟨kk, 0, v⟩).map (·.2)
+          | _, _ => none
+        | ["delete", kk] => match tokInt kk with
+          | some kk => (a.deleteT kk).map (·.2)
+          | none => none
+        | _ => some (List.replicate (k + 1) ⟨.cmp, a.dflt, a⟩)
+      -- (the real code makes further callbacks per visited node — key accessors — so the injection index is not
+      -- an index into this trace; every recorded arena is the pre-arena: `arena_map_insert/delete_callbacks`)
+      match tr? with
+      | none => "wf=1 | out=FAULT | st=- | tr="
+      | some tr =>
+        let pre := showArena a
+        let same := tr.all fun ae => showArena ae.arena == pre
+        s!"wf={if same then "1" else "0:trace"} | out=panic | st={pre} | tr="
     else if !(a.garbageOK st.tree.slots && a.zeroOK) then "wf=0:garbage | out=FAULT | st=- | tr=" else
     match arenaTrace op a with
     | none => "wf=1 | out=FAULT | st=- | tr="
